@@ -59,11 +59,51 @@ def kinds_of(msgs):
 
 RECIPES = [
     {"units": True, "rank3": False}, {"units": False, "rank3": False}, {"units": True, "rank3": True}, {"units": False, "rank3": True},
+    # the same with a second, consistent block whose entities carry the same names and other units (singles only)
+    {"units": True, "rank3": True, "decoy": "first"}, {"units": True, "rank3": True, "decoy": "last"},
 ]
+
+
+def build_decoy(f, bname):
+    """a consistent block whose arrays and tags have the SAME NAMES as the main block's but other units"""
+    b = f.create_block(bname, "blocktype")
+    a1 = b.create_data_array("a1", "signal", data=np.arange(4.0), unit="A")
+    a1.append_range_dimension([0.0, 1.0, 2.5, 4.0], unit="kHz")
+    a2 = b.create_data_array("a2", "signal", data=np.arange(6.0).reshape(2, 3))
+    a2.append_set_dimension(["x", "y"])
+    a2.append_sampled_dimension(0.5, unit="Hz")
+    a2b = b.create_data_array("a2b", "signal", data=np.arange(6.0).reshape(2, 3))
+    a2b.append_set_dimension(["x", "y"])
+    a2b.append_sampled_dimension(0.25, unit="Hz")
+    a3 = b.create_data_array("a3", "signal", data=np.arange(12.0).reshape(2, 3, 2))
+    a3.append_sampled_dimension(2.0, unit="K")
+    a3.append_range_dimension([1.0, 2.0, 3.0], unit="mol")
+    a3.append_set_dimension()
+    t1 = b.create_tag("t1", "tagtype", [1.0])
+    t1.extent = [1.5]
+    t1.units = ["Hz"]
+    t1.references.append(a1)
+    t2 = b.create_tag("t2", "tagtype", [0.0, 1.5])
+    t2.extent = [1.0, 0.5]
+    t2.units = ["", "mHz"]
+    t2.references.append(a2)
+    t2.references.append(a2b)
+    t3 = b.create_tag("t3", "tagtype", [2.0, 1.0, 0.0])
+    t3.units = ["mK", "mmol", ""]
+    t3.references.append(a3)
+    pos = b.create_data_array("pos", "positions", data=np.array([[0.0, 1.0], [1.0, 1.5]]))
+    pos.append_set_dimension()
+    pos.append_set_dimension()
+    mt = b.create_multi_tag("mt", "mtagtype", pos)
+    mt.units = ["", "kHz"]
+    mt.references.append(a2b)
+    mt.references.append(a2)
 
 
 def build(f, rec):
     u = rec["units"]
+    if rec.get("decoy") == "first":
+        build_decoy(f, "Ablk")
     sec = f.create_section("sec", "sectype")
     sub = sec.create_section("sub", "sectype")
     sec.create_property("p", [1])
@@ -117,6 +157,8 @@ def build(f, rec):
     s1.create_source("src", "sourcetype")
     b.metadata = sec
     a1.metadata = sub
+    if rec.get("decoy") == "last":
+        build_decoy(f, "zblk")
     return {"b": b, "arrays": arrays, "tags": tags, "mt": mt, "pos": pos, "ext": ext, "grp": g, "src": s1, "sec": sec, "sub": sub}
 
 
@@ -239,6 +281,28 @@ def _i6(ctx, rec):
                 n = len(d.ticks)
                 vals = [1.0] * 2 + [float(x + 2) for x in range(n - 2)]      # equal neighbours: accepted by the setter
                 out.append((key, (lambda ctx, key=key, i=i, vals=vals: setattr(obj(ctx, key).dimensions[i], "ticks", vals)), refs_of(ctx, key[1])))
+    return out
+
+
+@inj("unsorted-ticks-from-linked-array", "ticks", ["unsorted-ticks"])
+def _i6b(ctx, rec):
+    """the ticks come from a linked array (unsigned / signed integer / float element type) whose values decrease"""
+    out = []
+    for key in array_keys(ctx):
+        da = obj(ctx, key)
+        for i, d in enumerate(da.dimensions):
+            if isinstance(d, nix.RangeDimension):
+                n = len(d.ticks)
+                for dt in ("uint8", "int16", "float64", "uint64"):
+                    vals = np.array([5, 3] + [7 + x for x in range(n - 2)], dtype=dt)
+
+                    def ap(ctx, key=key, i=i, vals=vals, dt=dt):
+                        b = ctx["b"]
+                        name = "ticksrc-%s-%d-%s" % (key[1], i, dt)
+                        src = b.create_data_array(name, "ticks", data=vals)
+                        src.append_set_dimension()
+                        obj(ctx, key).dimensions[i].link_data_array(src, [-1])
+                    out.append((key, ap, refs_of(ctx, key[1])))
     return out
 
 
@@ -502,7 +566,7 @@ def run_case(case):
             got = errors.get(tid, set())
             if not any(k in got for k in I["kinds"]):
                 # documented masking
-                if I["name"] in ("tick-count-mismatch", "unsorted-ticks") and "no-ticks" in got:
+                if I["name"] in ("tick-count-mismatch", "unsorted-ticks", "unsorted-ticks-from-linked-array") and "no-ticks" in got:
                     continue
                 if I["name"] == "negative-sampling-interval" and "no-interval" in got:
                     continue
@@ -524,6 +588,7 @@ def run_case(case):
             "positions-dimension-mismatch": {"positions-extents-mismatch", "extents-dim-mismatch"},
             "extents-shape-mismatch": {"extents-dim-mismatch"}, "missing-descriptor": {"units-mismatch"},
             "surplus-descriptor": {"units-mismatch"}, "unsorted-ticks": {"ticks-mismatch"},
+            "unsorted-ticks-from-linked-array": {"ticks-mismatch"},
             "missing-sampling-interval": set(), "non-si-dimension-unit": set(),
         }
         for tid, I, _rel, key in ([] if interacting else applied):
